@@ -439,13 +439,13 @@ func advBlockFocused(rng *RNG) ([]byte, string) {
 			t2 = t1
 		}
 		b.FactsV2 = append(b.FactsV2, fact(1024, t1), fact(1025, t2))
-		body := []*pb.PredicateV2{pred(1024, vr(1030)), pred(1025, vr(1030))}
+		body := []*pb.PredicateV2{pred(1024, vr(1025)), pred(1025, vr(1025))}
 		if rng.Chance(30) {
 			b.FactsV2 = append(b.FactsV2, fact(1026, t1, t2))
-			body = []*pb.PredicateV2{pred(1026, vr(1030), vr(1030))}
+			body = []*pb.PredicateV2{pred(1026, vr(1025), vr(1025))}
 		}
 		b.ChecksV2 = append(b.ChecksV2, &pb.CheckV2{Queries: []*pb.RuleV2{query(body)}})
-		b.RulesV2 = append(b.RulesV2, &pb.RuleV2{Head: pred(2, vr(1030)), Body: body})
+		b.RulesV2 = append(b.RulesV2, &pb.RuleV2{Head: pred(2, vr(1025)), Body: body})
 	case 6: // a constant of every type in a body, facing facts of every type
 		fault = "typed-constant-match"
 		k := rng.Intn(8)
@@ -488,8 +488,8 @@ func advBlockFocused(rng *RNG) ([]byte, string) {
 	case 10: // an invalid rule with several matches, then an expression that fails
 		fault = "invalid-rule-then-expression-error"
 		b.FactsV2 = append(b.FactsV2, fact(1025, in(1)), fact(1025, in(0)), fact(1025, in(2)))
-		b.RulesV2 = append(b.RulesV2, &pb.RuleV2{Head: pred(2, vr(1031)), Body: []*pb.PredicateV2{pred(1025, vr(1030))},
-			Expressions: []*pb.ExpressionV2{{Ops: []*pb.Op{val(in(10)), val(vr(1030)), bin(pb.OpBinary_Div), val(in(0)), bin(pb.OpBinary_GreaterThan)}}}})
+		b.RulesV2 = append(b.RulesV2, &pb.RuleV2{Head: pred(2, vr(6)), Body: []*pb.PredicateV2{pred(1025, vr(1025))},
+			Expressions: []*pb.ExpressionV2{{Ops: []*pb.Op{val(in(10)), val(vr(1025)), bin(pb.OpBinary_Div), val(in(0)), bin(pb.OpBinary_GreaterThan)}}}})
 	case 11: // arithmetic at the boundaries, regular expressions
 		fault = "evaluation-error"
 		ops := [][]*pb.Op{
